@@ -59,7 +59,18 @@ type Stream struct {
 	MaxDead   int // >0: abort a call that reads a dead stream more than this many times
 
 	Fired map[string]int
+	G     Gate
+	gated bool
 }
+
+// BeginOp / EndOp bracket one library call that reads from s (stallNs > 0: its
+// first Read is slow, see Gate). Optional.
+func (s *Stream) BeginOp(stallNs int64) {
+	s.G.Fired = &s.Fired
+	s.gated = true
+	s.G.Begin(stallNs)
+}
+func (s *Stream) EndOp() (late int, note string, foreign int) { return s.G.End() }
 
 func NewStream(data []byte, pol ChunkPolicy) *Stream {
 	return &Stream{data: data, Policy: pol, Cut: -1, ErrAt: -1, Fired: map[string]int{}, MaxDead: 8}
@@ -92,6 +103,14 @@ func (s *Stream) limit() (int, error) {
 }
 
 func (s *Stream) Read(p []byte) (int, error) {
+	if s.gated {
+		_, late := s.G.enter(len(p), "Read", int64(s.Pos))
+		if late {
+			return 0, ErrLate
+		}
+		s.G.mu.Lock()
+		defer s.G.mu.Unlock()
+	}
 	s.Calls++
 	if len(p) == 0 {
 		return 0, nil
